@@ -3,6 +3,26 @@ import ThermoVerif.Lemmas.IndexerData
 import ThermoVerif.Lemmas.Chemicals
 /-
 C10 — name-keyed flow access equals positional access, whatever the lookup history.
+
+Model: `Model/Chemicals.lean` (name table, `set_alias`, `define_group`, `_compile`),
+`Model/Indexer.lean` (key normalisation and resolution, phases, dense read/write for the four
+index kinds), `Model/IndexCache.lean` (the two bounded memo dictionaries, the world of
+chemicals objects / indexers sharing them, operation histories, and the memo-free
+specification `PWorld`).  The model is written to the fixed behaviour of
+fixes_proposed/C10-1 … C10-4.
+
+Main results
+* `cache_transparent`, `cache_transparent_from`, `step_sim`, `lookup_eq_resolve` — for every
+  history of any length the memoising world answers exactly like the memo-free specification;
+  invariant `Inv`: every memoised pair `(k, v)` satisfies `resolve chem k = ok v`, preserved by
+  every operation including eviction (`evict1`), trimming (`trim`), `index_overlap` insertions
+  and alias / group definitions.
+* `get_positional_name/_tuple/_all/_phases`, `list_eq_tuple` — what a resolved key reads.
+* `set_frame`, `set_get_one/_arr_vec/_arr_scalar/_all/_grp_vec/_nested_vec`, `set_group_scalar`,
+  `setM_phase_row` — what a write changes and what reads back.
+* `alias_unique` — the table after `compile`.
+* `phase_lookup` (general) and `phase_lookup_table` (complete 32 × 5 table, by evaluation).
+* `lookup_bounded`, `trim_bounded` — the memo dictionaries stay within 100 / 500 entries.
 -/
 namespace ThermoVerif.Props.C10
 open ThermoVerif.Chemicals ThermoVerif.Indexer ThermoVerif.IndexCache
@@ -450,6 +470,126 @@ theorem set_get_grp_vec (c : Chem) (row : Row) (is : List Nat) (k : HKey) (xs : 
     (hn : is.Nodup) (hl : xs.length = is.length) (hb : ∀ i, i ∈ is → i < row.length) :
     (setIx c row (.grp is) k (.vec xs)).map (fun r => getIx r (.grp is)) = .ok (.scalar (sumRat xs)) := by
   simp [setIx, Except.map, getIx, writeZip_read is xs row hn hl hb]
+
+/-- Side conditions for writing through a nested key (a tuple mixing chemicals and groups):
+every group element of the key has a stored composition of the right length that sums to 1. -/
+def NestedOK (c : Chem) (k : HKey) : Nat → List Ent → Prop
+  | _, [] => True
+  | n, .pos _ :: t => NestedOK c k (n + 1) t
+  | n, .grp is :: t =>
+    (∃ comp, compOf c (itemName (keyItem k n)) = .ok comp ∧ comp.length = is.length ∧ sumRat comp = 1) ∧
+    NestedOK c k (n + 1) t
+
+theorem drop_cons_of_get {xs : List Rat} {n : Nat} {x : Rat} (h : xs[n]? = some x) :
+    xs.drop n = x :: xs.drop (n + 1) := by
+  obtain ⟨hlt, hx⟩ := List.getElem?_eq_some_iff.mp h
+  rw [List.drop_eq_getElem_cons hlt, hx]
+
+theorem writeNestedVec_read (c : Chem) (k : HKey) (xs : List Rat) :
+    ∀ (es : List Ent) (row : Row) (n : Nat) (row' : Row),
+    writeNestedVec c k xs row n es = .ok row' →
+    (es.flatMap Ent.positions).Nodup → (∀ i, i ∈ es.flatMap Ent.positions → i < row.length) →
+    NestedOK c k n es → es.map (getEnt row') = (xs.drop n).take es.length
+  | [], _, _, _, _, _, _, _ => by simp
+  | .pos i :: t, row, n, row', h, hn, hb, hok => by
+    simp only [writeNestedVec] at h
+    split at h
+    · cases h
+    · rename_i x hx
+      simp only [List.flatMap_cons, Ent.positions, List.singleton_append, List.nodup_cons] at hn
+      have hbi : i < row.length := hb i (by simp [Ent.positions])
+      have ih := writeNestedVec_read c k xs t (setAt row i x) (n + 1) row' h hn.2
+        (by intro j hj; rw [length_setAt]; exact hb j (by simp [hj])) hok
+      have hfr := (writeNestedVec_frame c k xs t _ _ row' i h).1 hn.1
+      simp only [List.map_cons, List.length_cons, getEnt]
+      rw [drop_cons_of_get hx, List.take_succ_cons, ih, hfr, getAt_setAt_eq _ _ hbi]
+  | .grp is :: t, row, n, row', h, hn, hb, hok => by
+    simp only [writeNestedVec] at h
+    split at h
+    · cases h
+    · rename_i x hx
+      obtain ⟨⟨comp, hc, hl, hs⟩, hok'⟩ := hok
+      simp only [hc, bind, Except.bind] at h
+      simp only [List.flatMap_cons, Ent.positions] at hn hb
+      rw [List.nodup_append] at hn
+      obtain ⟨hn1, hn2, hdis⟩ := hn
+      have hb1 : ∀ j, j ∈ is → j < row.length := fun j hj => hb j (List.mem_append_left _ hj)
+      have ih := writeNestedVec_read c k xs t _ (n + 1) row' h hn2
+        (by intro j hj; rw [length_writeZip]; exact hb j (List.mem_append_right _ hj)) hok'
+      have hmem : is.map (getAt row') = is.map (getAt (writeZip row is (comp.map (x * ·)))) := by
+        apply List.map_congr_left
+        intro j hj
+        exact (writeNestedVec_frame c k xs t _ _ row' j h).1 (fun hjt => hdis j hj j hjt rfl)
+      simp only [List.map_cons, List.length_cons, getEnt]
+      rw [drop_cons_of_get hx, List.take_succ_cons, ih, hmem,
+        writeZip_read is _ row hn1 (by simp [hl]) hb1, sumRat_map_mul, hs, Rat.mul_one]
+
+/-- **set_get** (tuple mixing chemicals and groups, 1-d data).  With pairwise distinct
+in-range positions and normalised group compositions, reading the key back returns the data
+written (each group element reads the sum of what was distributed over its members). -/
+theorem set_get_nested_vec (c : Chem) (row row' : Row) (es : List Ent) (k : HKey) (xs : List Rat)
+    (h : setIx c row (.nested es) k (.vec xs) = .ok row')
+    (hn : (es.flatMap Ent.positions).Nodup) (hb : ∀ i, i ∈ es.flatMap Ent.positions → i < row.length)
+    (hok : NestedOK c k 0 es) (hl : xs.length = es.length) :
+    getIx row' (.nested es) = .vec xs := by
+  simp only [setIx] at h
+  have := writeNestedVec_read c k xs es row 0 row' h hn hb hok
+  simp only [getIx, this, List.drop_zero]
+  rw [← hl, List.take_length]
+
+/-- non-vacuity of `set_get_nested_vec`: `('Water', 'Alc') = [3, 4]` on the row (1, 2, 4) -/
+example :
+    let c : Chem := ⟨3, [], [("Alc", [1/4, 3/4])]⟩
+    let k : HKey := .tup [.leaf (.str "Water"), .leaf (.str "Alc")]
+    (setIx c [1, 2, 4] (.nested [.pos 0, .grp [1, 2]]) k (.vec [3, 4])).toOption = some [3, 1, 3] ∧
+    NestedOK c k 0 [.pos 0, .grp [1, 2]] := by
+  refine ⟨by decide +kernel, ⟨[1/4, 3/4], rfl, rfl, by decide +kernel⟩, trivial⟩
+
+/-- **set_frame / set_get across phases.**  Writing through `(phase, IDs)` is the
+single-phase write on that phase's row; every other row is untouched. -/
+theorem setM_phase_row (c : Chem) (data data' : List Row) (p : Nat) (ix : Ix) (k : HKey) (d : Data)
+    (h : setM c data (.sub (some p) ix) k d = .ok data') :
+    ∃ r r', data[p]? = some r ∧ setIx c r ix k d = .ok r' ∧ data' = data.set p r' ∧
+      (∀ q, q ≠ p → data'[q]? = data[q]?) := by
+  simp only [setM] at h
+  split at h
+  · cases h
+  · rename_i r hr
+    simp only [bind, Except.bind] at h
+    split at h
+    · cases h
+    · rename_i r' hr'
+      simp only [pure, Except.pure] at h
+      cases h
+      refine ⟨r, r', hr, hr', rfl, ?_⟩
+      intro q hq
+      simp [setRowAt, Ne.symm hq]
+
+/-! ### The memo dictionaries stay bounded (what eviction is for) -/
+
+theorem lookup_bounded (s : CState) (k : HKey) (h : s.cache.length ≤ chemCacheLimit) :
+    (s.lookup k).2.cache.length ≤ chemCacheLimit := by
+  unfold CState.lookup
+  split
+  · exact h
+  · split
+    · simp only [evict1, List.length_append, List.length_singleton]
+      split
+      · simp only [List.length_drop, List.length_append, List.length_singleton]; omega
+      · simp only [List.length_append, List.length_singleton] at *; omega
+    · exact h
+
+theorem trim_bounded {κ β : Type} (l : List (κ × β)) (h : l.length ≤ matCacheLimit + 1) :
+    (trim l).length ≤ matCacheLimit := by
+  unfold trim
+  split
+  · simp only [List.length_drop, matCacheTrim, matCacheLimit] at *; omega
+  · omega
+
+/-- eviction really happens: the 101st entry pushes the oldest one out; the 501st pushes 100 out -/
+example : (evict1 ((List.range 101).map fun i => (i, i))).map Prod.fst = (List.range 101).drop 1 ∧
+    ((trim ((List.range 501).map fun i => (i, i))).map Prod.fst = (List.range 501).drop 100) := by
+  decide +kernel
 
 /-- non-vacuity of `set_group_scalar` / `set_frame`: 8 written to a group with composition
 (1/4, 3/4) at positions 1, 2 of the row (1, 2, 4) -/
